@@ -27,12 +27,14 @@ type libInner struct {
 }
 
 type libRoot struct {
-	Name   string    `json:"name"`
-	Nested libNested `json:"nested"`
-	Inner  libInner  `json:"inner"`
-	Size   int64     `json:"size"`
-	Wait   int64     `json:"wait"`
-	Ratio  float64   `json:"ratio"`
+	Name   string         `json:"name"`
+	Nested libNested      `json:"nested"`
+	Inner  libInner       `json:"inner"`
+	Size   int64          `json:"size"`
+	Wait   int64          `json:"wait"`
+	Ratio  float64        `json:"ratio"`
+	Extra  map[string]any `json:"extra"` // a plain (map-based) sub-object with object-typed defaults of its own
+	Items  []any          `json:"items"` // the same plain object as list item
 }
 
 // buildLibScope builds a struct-mapped scope whose non-pointer object members carry defaults and whose
@@ -48,6 +50,16 @@ func buildLibScope() *schema.ScopeSchema {
 		"size":   prop(schema.NewIntSchema(i64(0), nil, schema.UnitBytes), false, strp(`"1kB"`)),
 		"wait":   prop(schema.NewIntSchema(i64(0), nil, schema.UnitDurationSeconds), false, strp(`"1m30s"`)),
 		"ratio":  prop(schema.NewFloatSchema(f64(0), nil, schema.UnitPercentage), false, strp(`"50%"`)),
+		"extra":  prop(schema.NewRefSchema("libPlain", nil), false, nil),
+		"items":  prop(schema.NewListSchema(schema.NewRefSchema("libPlain", nil), nil, nil), false, nil),
+	})
+	plain := schema.NewObjectSchema("libPlain", map[string]*schema.PropertySchema{
+		"name":     prop(schema.NewStringSchema(nil, nil, nil), false, nil),
+		"settings": schema.NewPropertySchema(schema.NewRefSchema("libSettings", nil), nil, false, nil, nil, []string{"legacy"}, nil, nil),
+		"legacy":   schema.NewPropertySchema(schema.NewStringSchema(nil, nil, nil), nil, false, nil, nil, []string{"settings"}, nil, nil),
+	})
+	settings := schema.NewObjectSchema("libSettings", map[string]*schema.PropertySchema{
+		"level": prop(schema.NewStringSchema(nil, nil, nil), false, strp(`"info"`)),
 	})
 	nested := schema.NewStructMappedObjectSchema[libNested]("libNested", map[string]*schema.PropertySchema{
 		"a": prop(schema.NewStringSchema(nil, nil, nil), false, strp(`"nested-a"`)),
@@ -57,7 +69,7 @@ func buildLibScope() *schema.ScopeSchema {
 		"deep": prop(schema.NewRefSchema("libNested", nil), false, strp(`{"b":9}`)),
 		"tag":  prop(schema.NewStringSchema(nil, nil, nil), false, strp(`"tag-default"`)),
 	})
-	return schema.NewScopeSchema(root, nested, inner)
+	return schema.NewScopeSchema(root, nested, inner, plain, settings)
 }
 
 func libValues(s Src) any {
@@ -86,6 +98,25 @@ func libValues(s Src) any {
 	}
 	if s.Choose("lv.ratio", 3) == 1 {
 		v["ratio"] = "12.5%"
+	}
+	plainVal := func() map[string]any {
+		switch s.Choose("lv.plain", 3) {
+		case 1:
+			return map[string]any{"name": "p", "legacy": "old"}
+		case 2:
+			return map[string]any{"name": "p", "settings": map[string]any{"level": "debug"}}
+		}
+		return map[string]any{"name": "p"}
+	}
+	if s.Choose("lv.extra", 2) == 1 {
+		v["extra"] = plainVal()
+	}
+	if n := s.Choose("lv.items", 3); n > 0 {
+		items := []any{}
+		for i := 0; i < n; i++ {
+			items = append(items, plainVal())
+		}
+		v["items"] = items
 	}
 	return v
 }
